@@ -53,6 +53,13 @@ type MultiClusterSubjectAccessReviewAuthorizer struct {
 	decisionOnError authorizer.Decision
 }
 
+// hostSARCache is the decision cache of a host, bound to the cluster that served
+// the host when the cache was filled
+type hostSARCache struct {
+	cluster *clusters.ClusterInfo
+	cache   *cache.LRUExpireCache
+}
+
 func NewMultiClusterSubjectAccessReviewAuthorizer(clientProvider clusters.ClientProvider, allowCacheTTL, denyCacheTTL time.Duration) authorizer.Authorizer {
 	return &MultiClusterSubjectAccessReviewAuthorizer{
 		clientProvider:  clientProvider,
@@ -76,18 +83,25 @@ func (a *MultiClusterSubjectAccessReviewAuthorizer) Authorize(ctx context.Contex
 		return a.decisionOnError, "", err
 	}
 
-	c, loaded := a.caches.Load(host)
-	if !loaded {
-		c, loaded = a.caches.LoadOrStore(host, cache.NewLRUExpireCache(8192))
-		// destry cache when cluster stopped
-		if !loaded {
-			go func() {
-				<-cluster.Context().Done()
-				a.caches.Delete(host)
-			}()
-		}
+	var hostCache *hostSARCache
+	if c, loaded := a.caches.Load(host); loaded {
+		hostCache = c.(*hostSARCache)
 	}
-	cache := c.(*cache.LRUExpireCache)
+	if hostCache == nil || hostCache.cluster != cluster {
+		// no cache for this host yet, or the host is served by another cluster now:
+		// decisions obtained from the previous cluster must not be reused
+		hostCache = &hostSARCache{cluster: cluster, cache: cache.NewLRUExpireCache(8192)}
+		a.caches.Store(host, hostCache)
+		// destry cache when cluster stopped
+		created := hostCache
+		go func() {
+			<-cluster.Context().Done()
+			if c, ok := a.caches.Load(host); ok && c.(*hostSARCache) == created {
+				a.caches.Delete(host)
+			}
+		}()
+	}
+	cache := hostCache.cache
 
 	r := a.subjectAccessReviewFromAttributes(attr)
 	key, err := json.Marshal(r.Spec)
